@@ -265,7 +265,7 @@ package ice
 // configured filters (for the remote's network type only), and each dialled connection is either closed
 // again or owned by exactly the started active host candidate that is announced and paired with that remote.
 //@ func (*Agent).addRemotePassiveTCPCandidate
-//@   props C18 C09 C06
+//@   props C18 C09 C06 C11
 //@   opt nosafety
 //@   ghostvar pending int = 0
 //@   site call localInterfaces#1 assert scans-with-the-configured-filters: arg1 == a.interfaceFilter && arg2 == a.ipFilter && arg4 == a.includeLoopback && len(arg3) == 1
@@ -276,6 +276,11 @@ package ice
 //@   site call start#1 assert C09 the-candidate-owns-the-connection-it-was-dialled-for: pending == 1 && arg1 == a && arg2.payload == conn
 //@   site call start#1 ghost pending := 0
 //@   site call EnqueueCandidate#1 assert announces-the-started-candidate: arg1.payload == localCandidate
+//@   ghostvar labelled bool = false
+//@   site call NewCandidateHost#1 ghost labelled := false
+//@   site call setCandidateExtensions#1 assert C11 labels-the-candidate-it-is-about-to-announce: arg1.payload == localCandidate
+//@   site call setCandidateExtensions#1 ghost labelled := true
+//@   site call EnqueueCandidate#1 assert C11 every-announced-candidate-carries-the-ufrag-of-its-generation: labelled
 //@   requires C06 a.pairsByID != nil
 //@   site call addPair#1 assume id-space-not-exhausted: a.nextPairID < 18446744073709551615
 //@   loop 1 invariant C06 the-pair-index-exists: a.pairsByID != nil
